@@ -43,6 +43,11 @@
 (*           and collapse iff a job dedups on the narrower set.  The code  *)
 (*           dedups on the UNION of arc:tags of the raw inputs of the job  *)
 (*           (TagUnion = TRUE; FALSE = "newest tagged file only").         *)
+(*  "clones" no metadata, but file 1 holds row 1 TWICE (identical in every *)
+(*           column, NULLs included) and file 2 holds a third copy next to *)
+(*           its own row: a plain merge keeps all copies (PlainDistinct =  *)
+(*           FALSE, the code; TRUE = SELECT DISTINCT, negative control)    *)
+(*  "clones_tags"  the same rows WITH arc:tags: the copies may collapse    *)
 (* A "<out>.part" left by a kill between copy and rename is a directory    *)
 (* entry: queries (glob of .parquet) do not see it; the hourly tier's      *)
 (* listing saw it before db8e9fa (ListAllEntries = TRUE).                  *)
@@ -54,7 +59,8 @@ CONSTANTS NFiles,     \* raw files in the partition
           MaxBatch,   \* compaction.max_files_per_batch (>= 2)
           MaxKills,   \* kills over the whole behaviour
           MaxCycles,  \* compaction cycles
-          DedupModes, \* subset of {"none", "tags", "shrink"}: input class, chosen in Init
+          DedupModes, \* subset of {"none", "tags", "shrink", "clones", "clones_tags"}: input class, chosen in Init
+          PlainDistinct, \* FALSE: the metadata-free merge is SELECT * (the code); TRUE: SELECT DISTINCT * (negative control)
           TagUnion,   \* TRUE: readTagColumnsFromParquetFiles unions arc:tags over all inputs (the code);
                       \* FALSE: it takes the newest tagged input's set only (negative control)
           RecoverOnCrash, \* TRUE (code since e2ad6be): CompactPartition resolves the crashed job's own manifest
@@ -79,6 +85,11 @@ KeyOf(r)  == IF dedup = "tags" THEN (r + 1) \div 2 ELSE r
 \* key of a dedup on the narrower tag set {host}: the rows of the older half pair up
 NarrowKey(r) == IF r <= Half THEN (r + 1) \div 2 ELSE NFiles + r
 Keys      == {KeyOf(r) : r \in Rows}
+Clones    == dedup \in {"clones", "clones_tags"}
+NoMeta    == dedup \in {"none", "clones"}         \* no file carries arc:tags / arc:dedup_time
+InitBag(i) == [r \in Rows |-> IF r = i THEN (IF Clones /\ i = 1 THEN 2 ELSE 1)
+                               ELSE IF Clones /\ i = 2 /\ r = 1 THEN 1 ELSE 0]
+Mult(r)   == IF Clones /\ r = 1 /\ NFiles >= 2 THEN 3 ELSE 1   \* copies of row r the partition shows initially
 
 RECURSIVE BagSum(_)
 BagSum(S) == IF S = {} THEN EmptyBag
@@ -113,7 +124,7 @@ H(t, n, depth, gate, nvalid, vis, parts, verdict, clean) ==
      vis |-> vis, parts |-> parts, verdict |-> verdict, clean |-> clean, dedup |-> dedup]
 
 Init == /\ dedup \in DedupModes
-        /\ store = {[id |-> i, kind |-> "raw", bag |-> [r \in Rows |-> IF r = i THEN 1 ELSE 0]] : i \in 1..NFiles}
+        /\ store = {[id |-> i, kind |-> "raw", bag |-> InitBag(i)] : i \in 1..NFiles}
         /\ manifests = {} /\ mgr = "idle" /\ queue = <<>> /\ job = Idle
         /\ cyc = 0 /\ kills = 0 /\ cycKills = 0 /\ nextId = NFiles + 1
         /\ lastClean = TRUE /\ unsafeDel = FALSE /\ hist = <<>>
@@ -126,8 +137,9 @@ FileById(id)    == CHOOSE f \in store : f.id = id
 LosesKey(st, st2) == KeysVisible(st) \ KeysVisible(st2) # {}
 
 VisBag(st)  == BagSum(Visible(st))
-DupRow(st)  == \E r \in Rows : VisBag(st)[r] > 1
-LostKey(st) == \E k \in Keys : \A r \in Rows : KeyOf(r) = k => VisBag(st)[r] = 0
+DupRow(st)  == \E r \in Rows : VisBag(st)[r] > Mult(r)
+LostKey(st) == \/ \E k \in Keys : \A r \in Rows : KeyOf(r) = k => VisBag(st)[r] = 0
+               \/ NoMeta /\ \E r \in Rows : VisBag(st)[r] < Mult(r)   \* without metadata nothing may collapse
 Conserved(st) == ~DupRow(st) /\ ~LostKey(st)
 VerdictOf(st) == IF DupRow(st) THEN (IF LostKey(st) THEN "dup+lost" ELSE "dup")
                  ELSE IF LostKey(st) THEN "lost" ELSE "ok"
@@ -215,12 +227,12 @@ Compact ==
     /\ job.pc = "compact"
     /\ LET ins  == {FileById(job.valid[i]) : i \in DOMAIN job.valid}
            raws == {f \in ins : f.kind = "raw"}             \* only raw files carry arc:tags
-           meta == dedup # "none" /\ raws # {}
+           meta == ~NoMeta /\ raws # {}
            \* the tag set the job dedups on: union over its raw inputs, or the newest raw input's only
            full == IF TagUnion THEN \E f \in raws : FullTags(f.id)
                    ELSE FullTags((CHOOSE f \in raws : \A g \in raws : g.id <= f.id).id)
            sum  == BagSum(ins)
-           out  == IF ~meta THEN sum
+           out  == IF ~meta THEN (IF PlainDistinct THEN [r \in Rows |-> IF sum[r] > 0 THEN 1 ELSE 0] ELSE sum)
                    ELSE IF dedup = "shrink" /\ ~full THEN Collapse(sum, NarrowKey)
                    ELSE Collapse(sum, KeyOf)
        IN job' = [job EXCEPT !.pc = "manifest", !.out = nextId, !.bag = out]
